@@ -70,7 +70,7 @@ def shape_key(case, results):
             return "store-" + t[1] + "-" + "-".join(f for f in r.flags if f.startswith("merge-") or f in ("dup", "add-missing", "fetch-missing"))
     return "none"
 
-SOURCE_TIE = "Source-level tie by proof (Tie/Track, Tie/StoreCmd, Tie/StoreMap): Track::add_observation, Track::merge, the Merge command of the store worker and the map operations add_track / fetch_tracks / shard_stats / get_executor, regenerated from the source, equal the model's addObservation / merge / per-shard mergeExternal step / addTrack / fetchTracks / shardStats / shardOf."
+SOURCE_TIE = "Source-level tie by proof (Tie/Track, Tie/StoreCmd, Tie/StoreMap): Track::add_observation, Track::merge, the Merge command of the store worker the map operations add_track / fetch_tracks / shard_stats / get_executor and TrackStore::add (an observation by track id: a missing id goes through the builder, an existing track through add_observation; equal to the model's add as a map, i.e. up to lookup), regenerated from the source, equal the model's addObservation / merge / per-shard mergeExternal step / addTrack / fetchTracks / shardStats / shardOf."
 LEVEL_TEXT = LEVEL_TEXT + " " + SOURCE_TIE
 TRUSTED_BASE = TRUSTED_BASE + ["translator/kernels.py + rustexpr.py (reader of the Rust subset, per-function tables) for the functions named in SOURCE_TIE; generated definitions are proof obligations (Tie modules) on every run"]
 TECHNIQUE = TECHNIQUE + "; model regenerated from the source by a translator for the functions of SOURCE_TIE, tied by proof"
